@@ -5,6 +5,36 @@ HERE = os.path.dirname(os.path.dirname(os.path.abspath(__file__)))
 
 # id -> (engine, category, technique, text, note)
 CHECKS = {
+ "C03": ("E2 selstate (real select_connection_idx on real connections) + E3 shellsim decision tier (real handle_srt_packet)", "exploration",
+         "property-based testing with a validity predicate: generated link-state histories and configs, every select checked 'usable link exists => Some'; shell tier with states produced by real packets incl. REG_ERR",
+         "On every select of generated link-state histories (phases, receive age at the timeout edges, in-flight around thresholds, proof age, latch/pull history, weak/loss-degraded, CC target vs bitrate, quality history, every config setting, both modes) a link is returned whenever an independently computed usable link exists; the shell tier repeats the predicate on real handle_srt_packet decisions (datagram must be queued somewhere) with link states produced by real uplink packets, housekeeping and clock steps.",
+         "Link states are reachable by construction (production calls + fields the shell writes). Gate-combination histogram is in the evidence. Held on what was explored.",
+         "5/C03"),
+ "C04": ("E3 shellsim decision tier (real handle_srt_packet over loopback)", "exploration",
+         "property-based testing with an eligibility predicate evaluated on the link that actually received the unique copy (read off queues and the wire) after generated real-packet histories",
+         "For every client datagram (data, retransmit-flagged, control; critical window open/closed; both modes; quality on/off) pushed through the real handle_srt_packet after a generated history of real uplink packets, housekeeping, clock steps and config changes, the link holding the unique copy is registered since its last reset, heard within the timeout and not stall-gated in that call; extra copies only on stall-gated connected links and never for control packets.",
+         "Eligibility uses the three clauses of the statement (+ connected). Held on what was explored.",
+         "5/C04"),
+ "C12": ("E2 selstate with a guard-always-off twin", "exploration",
+         "metamorphic / relational property testing: state projection before = after every select; twin run with the guard always off must take the same decision whenever the guard is off",
+         "Every select leaves a full projection of each link's liveness/accounting state unchanged; with the guard off every stall flag, latch and stamp is cleared and the decision equals that of a twin link set that ran the same history with the guard never on (same previous index).",
+         "Twin comparison only when the select is >=50 ms after the previous one or quality scoring is not in effect (quality cache refresh). Held on what was explored.",
+         "5/C12"),
+ "C13": ("E1 core traces (real select_connection_idx drives latch and pull)", "exploration",
+         "stateful property testing with an independent temporal monitor over generated timed traces",
+         "Latch engages only with non-zero proof older than clamp(4 x sRTT, 1000, ceiling) and (in-flight >= threshold or silence pull held); gate-event counter moves exactly on engage; release only after reset/guard-off or after proof stayed fresh at every decision of a run spanning >= 2 x the smallest window; silence pull engages only when connected, loaded and silent for min(max(2 x sRTT, 250), W) and releases only when heard again, disconnected, reset or guard-off.",
+         "Proof/inbound times are tracked by the harness from the trace. 'Must latch' is not asserted (the statement only says 'only when'). Held on what was explored.",
+         "5/C13"),
+ "C16": ("E1: LinkCongestionState direct + LinkCcController::tick_all on real connections", "exploration",
+         "stateful property testing with a snapshot-to-snapshot monitor over generated tick histories",
+         "Target within [100k, 200M]; Bootstrap at the floor until an RTT sample is fed; lowered only by BackingOff (>= 0.85 x prev, >= min(observed, prev)) or once on Drain entry (>= 0.75 x prev); BackingOff never raises; seeding bounded by 1.06 x max(min(observed,4M),1M); later growth <= 6% per tick and <= 2 x observed; loss latch sets only after the exported loss average stayed > 0.55 for >= 4000 ms and clears only below 0.25.",
+         "+-1 bit/s truncation slack. Observed bitrate written to the field the controller reads. Held on what was explored.",
+         "5/C16"),
+ "C17": ("E1: WeakLinkFilter::classify on real connections", "exploration",
+         "stateful property testing with a verdict-sequence monitor over generated tick histories",
+         "Never weak when disconnected or when total connected throughput < 100 kbit/s; a delay verdict needs the delay signal on the previous tick too; at most 15 consecutive low-share/no-traffic verdicts followed by three not-weak ticks; enter low-share only below 250/n permille (+1), leave only above 750/n permille (-2).",
+         "Delay tier read from the classifier's own result; leave threshold enforced only when leaving a low-share/no-traffic verdict. Held on what was explored.",
+         "5/C17"),
  "C02": ("E3-lite shellsim (real forward_via_connection / handle_uplink_packet / flush_all_batches over loopback, virtual clock)", "exploration",
          "model-based stateful property testing: generated send/ACK/SRTLA-ACK/NAK/reset histories (proptest Vec<Op> + interpreter) against a per-link set model in lock-step",
          "After every op of a generated history the real per-link in-flight count equals the size of an independent set model (insert at flush, retire by cumulative ACK on every link, by SRTLA ACK on one holder with the arrival link first, by a NAK on at most one holder, by reset), is never negative, and get_score equals window/(in-flight+queued+1). Covers late sends below the ACK high-water mark, ACK jumps across the 64-wide fast path, duplicate/stale ACKs, probe copies, ranges and resets with outstanding packets.",
